@@ -339,4 +339,60 @@ def cliClauses (cfg : CliCfg) (c : Call) (ops : List Op) (ret : Ret) : List (Str
 
 def cliHolds (cfg : CliCfg) (c : Call) (ops : List Op) (ret : Ret) : Bool := (cliClauses cfg c ops ret).all (·.2)
 
+/-! ### the add endpoint
+
+Reading: the request is malformed when it has no multipart body, the body is not multipart or not what
+the options say it is, or any pin option or add option it carries has an undecodable value (an unknown
+chunker or hash function included).  `mode` and `pin-update` do not apply to adding (content is always pinned recursively,
+there is nothing to update from) and are not compared.  A well-formed request, when the cluster
+answers, yields: one allocation request carrying the options, block puts, and one Cluster.Pin of a plain
+data pin carrying exactly the options.  The endpoint streams one JSON document per added node by
+design, so "single JSON document" is demanded only when the request asks for the buffered form
+(stream-channels=false); a streamed body must still be nothing but JSON documents. -/
+
+def addBoolKeys : List String :=
+  ["local", "recursive", "hidden", "wrap-with-directory", "shard", "progress", "raw-leaves", "stream-channels", "nocopy"]
+
+/-- every add option the request carries decodes -/
+def addOptionsOk (q : List (String × QV)) : Bool :=
+  addBoolKeys.all (fun k => (boolParam (getq q k) false).isSome) &&
+  (wordParam (getq q "layout")).isSome && (wordParam (getq q "format")).isSome &&
+  (lateWord (getq q "chunker") "").isSome && (lateWord (getq q "hash") "").isSome &&
+  (intParam (getq q "cid-version") 0).isSome
+
+/-- the options say the body is something it is not: a CAR archive (`format=car`; the harness sends a plain
+    file), content to be referenced from a URL instead of copied (`nocopy=true`; the content is inline) -/
+def bodyMismatch (q : List (String × QV)) : Bool :=
+  getq q "format" == .valid (.str "car") || getq q "nocopy" == .valid (.bool true)
+
+def addMalformed (r : AddReq) : Bool :=
+  r.mp != .ok || (carried r.query r.md).isNone || !addOptionsOk r.query || bodyMismatch r.query
+
+/-- the options compared on the add route: everything but mode and pin-update -/
+def addCmp (o : Opts) : Opts := canonOpts { o with mode := .recursive, update := none }
+
+def addFaithful (r : AddReq) (o : AddResp) : Bool :=
+  match carried r.query r.md, o.ops with
+  | some w, [⟨"Cluster.BlockAllocate", .path _ oa⟩, ⟨"IPFSConnector.BlockPut", .blk⟩, ⟨"Cluster.Pin", .pin p sm⟩] =>
+    addCmp oa == addCmp w && addCmp p.opts == addCmp w && p.type == .dataT && p.ref == none && sm == .recursive
+  | _, _ => false
+
+def addAuthorized (r : AddReq) : Bool := !r.creds || r.auth == .right
+
+def addStreams (r : AddReq) : Bool := getq r.query "stream-channels" != .valid (.bool false)
+
+def addClauses (r : AddReq) (o : AddResp) : List (String × Bool) :=
+  [ ("auth_gate", addAuthorized r || o.ops.isEmpty),
+    ("answered", o.status != 0),
+    ("single_document",
+      if !addAuthorized r || addMalformed r then (o.status == 0 || o.body == .docs 1)
+      else if addStreams r then (match o.body with | .docs _ => true | .junk _ => false)
+      else o.body == .docs 1) ] ++
+  (if !addAuthorized r then []
+   else if addMalformed r then [("fail_closed", is4xx o.status && o.ops.isEmpty)]
+   else if r.rpc == .ok then [("faithful", addFaithful r o)]
+   else [])
+
+def addHolds (r : AddReq) (o : AddResp) : Bool := (addClauses r o).all (·.2)
+
 end CV.C11
